@@ -669,17 +669,25 @@ impl Exec {
         }
         let pretty = how == 1 || how == 3;
         let via_file = how >= 2;
-        let path = format!("{}/snap_{}.json", self.run_dir, self.op_index);
+        // one path per run, deliberately re-used (and not removed in between): a snapshot written over an older,
+        // longer file (pretty then compact, or a book that shrank) must still load back
+        let path = format!("{}/snap.json", self.run_dir);
         let restored: Result<Result<Box<dyn Mkt>, String>, String> = if via_file {
             if self.run_dir.is_empty() {
                 self.stats.skipped_ops += 1;
                 return Ok(());
             }
             let real = &self.real;
-            guard(|| {
+            let before = std::fs::metadata(&path).map(|m| m.len()).unwrap_or(0);
+            let r = guard(|| {
                 real.save(&path, pretty)?;
                 mkt_load(cfg.market, cfg.assets, into_levels, &path)
-            })
+            });
+            let after = std::fs::metadata(&path).map(|m| m.len()).unwrap_or(0);
+            if before > after && after > 0 {
+                self.stats.probe("snapshot_over_longer_file");
+            }
+            r
         } else {
             let real = &self.real;
             guard(|| {
@@ -726,7 +734,7 @@ impl Exec {
             self.truncation(&path, into_levels)?;
         }
         if via_file {
-            let _ = std::fs::remove_file(&path);
+            self.stats.probe("file_snapshots");
         }
         if keep && self.twins.len() < MAX_TWINS {
             self.twins.push(restored);
@@ -1000,6 +1008,9 @@ pub fn execute(scn: &W1Scn, run_dir: &str) -> RunOutcome {
     };
     ex.run_dir = run_dir.to_string();
     let v = ex.run(&scn.ops);
+    if !run_dir.is_empty() {
+        let _ = std::fs::remove_file(format!("{}/snap.json", run_dir));
+    }
     let mut stats = std::mem::take(&mut ex.stats);
     // distinct short operation prefixes (reach measure for the dense small-alphabet corner)
     {
